@@ -24,10 +24,13 @@ import (
 // in the executor. The oracle itself is the agreement of the two back-ends.
 
 type DiffCase struct {
-	TTL  int64 `json:"ttl"` // default ttl of both caches (positive)
-	Keys int   `json:"keys"`
-	Ops  []Op  `json:"ops"`
+	TTL  int64   `json:"ttl"` // default ttl of both caches (positive)
+	Keys int     `json:"keys"`
+	Scan ScanCfg `json:"scan"` // how the fake Redis pages its SCAN replies
+	Ops  []Op    `json:"ops"`
 }
+
+const diffMaxKeys = 16
 
 type refEntry struct {
 	dl       int64
@@ -217,7 +220,13 @@ func (r *ref) apply(o Op) (expect string, classes []string) {
 func GenDiff(t *rapid.T) DiffCase {
 	c := DiffCase{
 		TTL:  rapid.SampledFrom([]int64{1, 3, 10}).Draw(t, "ttl"),
-		Keys: rapid.IntRange(1, 4).Draw(t, "keys"),
+		Keys: rapid.SampledFrom([]int{1, 2, 2, 3, 3, 4, 4, 5, 6, 8, 11, 12}).Draw(t, "keys"),
+		Scan: ScanCfg{
+			Page:    rapid.SampledFrom([]int{10, 1, 2, 3}).Draw(t, "page"),
+			Foreign: rapid.SampledFrom([]int{0, 1, 2, 4}).Draw(t, "foreign"),
+			Gap:     rapid.SampledFrom([]int{0, 0, 1, 2, 3}).Draw(t, "gap"),
+			Reuse:   rapid.Bool().Draw(t, "reuse"),
+		},
 	}
 	r := newRef(c.TTL)
 	for _, p := range genProtos(t, c.Keys, true) {
@@ -265,7 +274,7 @@ func outcome(err error) string {
 
 func ExecDiff(c DiffCase) *vkit.Result {
 	res := &vkit.Result{}
-	if c.TTL <= 0 || c.Keys < 1 || c.Keys > maxKeys {
+	if c.TTL <= 0 || c.Keys < 1 || c.Keys > diffMaxKeys {
 		res.Skip("malformed-case")
 		return res
 	}
@@ -275,7 +284,7 @@ func ExecDiff(c DiffCase) *vkit.Result {
 	defer restore()
 	ctx := context.Background()
 	mem := cache.NewTTLMemCache(1<<20, c.TTL)
-	fake := newFakeRedis(clock)
+	fake := newFakeRedis(clock, c.Scan)
 	rds := cache.NewTTLRdsCache(fake, rdsPrefix, c.TTL)
 	r := newRef(c.TTL)
 	var log []string
@@ -356,9 +365,33 @@ func ExecDiff(c DiffCase) *vkit.Result {
 			for _, cl := range classes {
 				res.Class(cl)
 			}
+			// how a complete SCAN of the prefix is paged right now (labels only)
+			layout := fake.ScanLayout(rdsPrefix + "*")
+			withKeys, total := 0, 0
+			for _, n := range layout {
+				total += n
+				if n > 0 {
+					withKeys++
+				}
+			}
+			if len(layout) > 1 {
+				res.Class("clear-scan-has-several-pages")
+			}
+			if withKeys > 1 {
+				res.Class("clear-spans-several-scan-pages")
+				res.Class(fmt.Sprintf("clear-spans-several-scan-pages:page=%d", c.Scan.normal().Page))
+			}
+			if len(layout) > 1 && layout[0] == 0 && total > 0 {
+				res.Class("clear-first-scan-page-empty")
+			}
+			for p := 1; p+1 < len(layout); p++ {
+				if layout[p] == 0 && total > 0 {
+					res.Class("clear-empty-scan-page-in-the-middle")
+				}
+			}
 			mem.Clear(ctx)
 			rds.Clear(ctx)
-			log = append(log, fmt.Sprintf("[%d] Clear()", i))
+			log = append(log, fmt.Sprintf("[%d] Clear() scan pages %v", i, layout))
 		case "advance":
 			r.apply(o)
 			clk += o.Dt
@@ -380,7 +413,7 @@ func ExecDiff(c DiffCase) *vkit.Result {
 	return res
 }
 
-const ruleDiff = "rapid: default ttl in {1,3,10}, 1..4 keys, 1..40 independently drawn elements with the same mix and scripted shapes as part mem but restricted as the property says - positive ttls only (WithTTL in {1,2,3,5,10}, update-ttl in {0=default,1,2,5,10}), keep-ttl only on keys the reference knows to be live, Advance amounts bumped so that the clock never equals a pending deadline (just before / just past the nearest deadline are drawn on purpose); inadmissible ops produced by shrinking are skipped and counted. The same history is applied to NewTTLMemCache(2^20) and NewTTLRdsCache(fake redis.Cmdable with Redis semantics on the same virtual clock); oracle: identical ok / AlreadyExists / hit / miss outcome and identical value at every step and in a final probe of every key. Non-trivial: some Get or must-not-exist Set happens on a key whose ttl has elapsed, or a hit happens after the original deadline thanks to update-ttl; distinct = distinct case JSON"
+const ruleDiff = "rapid: default ttl in {1,3,10}, 1..12 keys (small counts weighted), the fake's SCAN shape (page size in {1,2,3,10} slots per call, 0..4 keys of a foreign prefix up front, optionally another foreign key after every 1st..3rd new key, holes reused or not), 1..40 independently drawn elements with the same mix and scripted shapes as part mem but restricted as the property says - positive ttls only (WithTTL in {1,2,3,5,10}, update-ttl in {0=default,1,2,5,10}), keep-ttl only on keys the reference knows to be live, Advance amounts bumped so that the clock never equals a pending deadline (just before / just past the nearest deadline are drawn on purpose); inadmissible ops produced by shrinking are skipped and counted. The same history is applied to NewTTLMemCache(2^20) and NewTTLRdsCache(fake redis.Cmdable with Redis semantics on the same virtual clock); Clear is drawn at 3% plus a scripted shape (Set many keys with ttl 10, Clear, Get the last and the first, Set must-not-exist the last) at 1% per element, so that the prefix regularly spans several SCAN pages when Clear runs (classes clear-spans-several-scan-pages, clear-first-scan-page-empty, clear-empty-scan-page-in-the-middle); oracle: identical ok / AlreadyExists / hit / miss outcome and identical value at every step and in a final probe of every key. Non-trivial: some Get or must-not-exist Set happens on a key whose ttl has elapsed, or a hit happens after the original deadline thanks to update-ttl; distinct = distinct case JSON"
 
 var PartDiff = &vkit.Part[DiffCase]{
 	Property: Property, Name: "diff",
